@@ -21,7 +21,7 @@ FUNCTIONS = [
 
 L1 = ["A", "B", "C", "E"]  # E has no options at all: its settings are an empty namespace
 L2 = ["A1", "A2"]
-DEFAULTS1 = {"A": {"x": 1}, "B": {"y": 2}, "C": {"z": 3}, "E": {}}
+DEFAULTS1 = {"A": {"x": 1, "x2": 11}, "B": {"y": 2}, "C": {"z": 3}, "E": {}}  # A has a second option that is never given: it must come from the sub-parser defaults
 DEFAULTS2 = {"A1": {"p": 4}, "A2": {"q": 5}}
 LEAF1 = {"A": "x", "B": "y", "C": "z", "E": None}
 LEAF2 = {"A1": "p", "A2": "q"}
@@ -42,6 +42,9 @@ def _tree(required, depth, default_file=None):
         p = ArgumentParser(exit_on_error=False)
         if LEAF1[name]:
             p.add_argument("--" + LEAF1[name], type=int, default=DEFAULTS1[name][LEAF1[name]])
+        for extra, dflt in DEFAULTS1[name].items():
+            if extra != LEAF1[name]:
+                p.add_argument("--" + extra, type=int, default=dflt)
         subs[name] = p
     sc = top.add_subcommands(required=required)
     for name in L1:
